@@ -33,7 +33,12 @@ def tree_lengths(rng, used, maxdepth=24):
 def gen_book(rng, used, dim, vq, style=None):
     """style: None=random among unordered / sparse / ordered / single"""
     style = style if style is not None else rng.choice(["plain", "plain", "sparse", "ordered"])
-    lens = tree_lengths(rng, used)
+    if style == "huge":
+        # more than 32767 used entries (the decoder's packed search hints hold 15-bit bounds): a complete tree of 15/16-bit codewords
+        lens = [16] * 32768 + [15] * 16384
+        style = rng.choice(["plain", "ordered"])
+    else:
+        lens = tree_lengths(rng, used)
     if style == "ordered":
         lens = sorted(lens)
     else:
@@ -86,6 +91,9 @@ class SetupGen:
         if not self.rich:
             dim = dim or rng.choice([1, 2, 4])
             used = used or rng.choice([4, 8, 16, 81])
+        if self.rich and not getattr(self, "has_huge", False) and rng.below(60) == 0:
+            self.has_huge = True
+            return self.add_book(49152, rng.choice([1, 2]), True, "huge")
         dim = dim or rng.choice([1, 1, 2, 2, 3, 4, 4, 5, 8, 16])
         used = used or rng.choice([1, 2, 3, 5, 8, 9, 16, 27, 32, 81, 128, 243])
         return self.add_book(used, dim, True)
